@@ -123,6 +123,7 @@ PROPS = {
         theorems=[],
         streams=[stream('names', 'whole', faults=0.0, n=(3000, 50000))],
         k2=['eq', 'hash', 'ord', 'debug', 'clone', 'default', 'deref', 'into', 'union', 'generics'], k2_hostile=True, k2_n=(40, 400),
+        k2_n_by={'generics': (100, 800)},
     ),
     'C12': dict(
         title="Explicit bound modes and the type's own generics are honoured verbatim",
